@@ -174,6 +174,23 @@ def run(ctx):
         raise AnchorMissing("parse_dsym::DSymSpec")
     int_fields = {f["name"] for v in spec_adt["variants"] for f in v["fields"] if f["ty"] in INT_TYS}
 
+    # a D-set built by PartialDSet::new(size, dim) from parsed numbers keeps them as its size / dim (no writer of these fields outside the
+    # constructors and grow()), through every conversion: `<anything derived from that local>.dim` is the parsed dimension
+    built = {}
+    for l in range(body.argc + 1, len(body.f["locals"])):
+        for dbb, d in body.all_defs_origins(l):
+            d = norm(d, g)
+            if is_call(d, "PartialDSet::new") and len(d[2]) == 2 and any(has_parse(a) for a in d[2]):
+                built[l] = d[2]
+
+    def built_field(t):
+        """`<derived from a D-set built by PartialDSet::new(size, dim)>.dim` -> the dim argument of that constructor call"""
+        if isinstance(t, tuple) and t and t[0] == "field" and t[2] in ("dim", "size") and not has_parse(t):
+            ls = [x for x in subterms(t[1]) if x[0] == "local" and x[1] in built]
+            if ls:
+                return built[ls[0][1]][1 if t[2] == "dim" else 0]
+        return None
+
     def tracked(t):
         if not isinstance(t, tuple) or not t or not has_parse(t):
             return False
@@ -188,6 +205,7 @@ def run(ctx):
     def name_of(t):
         if t in name_of_t:
             return name_of_t[t]
+
         if t[0] == "field" and t[2] in int_fields and has_parse(t):
             return "spec." + t[2]
         if t[0] == "field" and has_parse(t) and t[1][0] == "field" and t[1][2] == "1":
@@ -195,6 +213,7 @@ def run(ctx):
         return None
 
     eng = T5(ctx.facts, max_depth=4)
+    eng.rewrite = built_field
     n = eng.evaluate_entry(ctx, "T5-untrusted-input", ENTRY, tracked, name_of=name_of)
     ctx.floor("panic sites depending on parsed numbers", n, 10)
     ctx.notes.append("T5 stats: %s; functions reachable from from_str: %d" % (eng.stats, len(reach)))
